@@ -430,13 +430,15 @@ namespace
                 Node* n = alloc(kind, iface, sz, al);
                 if (n)
                 {
-                    if (side == 4)
+                    if (side >= 4 && side <= 6)
                     {
-                        // both fences of the same node: byte idx in front of it and byte idx2 behind it
+                        // two bytes: 4 = byte idx in front of the node and byte idx2 behind it, 5 = both in the fence
+                        // in front of it, 6 = both in the fence behind it
                         long idx2 = static_cast<long>(c.arg(7, 0));
-                        long offs[2] = {-1 - idx, static_cast<long>(sz) + idx2};
-                        bool ok[2]   = {n->mine && static_cast<std::size_t>(idx) < n->fpre,
-                                        n->mine && static_cast<std::size_t>(idx2) < n->fpost};
+                        long offs[2] = {side == 6 ? static_cast<long>(sz) + idx : -1 - idx,
+                                        side == 5 ? -1 - idx2 : static_cast<long>(sz) + idx2};
+                        bool ok[2]   = {n->mine && static_cast<std::size_t>(idx) < (side == 6 ? n->fpost : n->fpre),
+                                        n->mine && static_cast<std::size_t>(idx2) < (side == 5 ? n->fpre : n->fpost)};
                         for (int k = 1; k >= 0; --k) // the back one first: the order of the writes must not matter
                         {
                             int old = -1;
